@@ -74,6 +74,7 @@ func init() {
 			{"dead-update", "no struct-typed local is assigned and field-updated without ever being read, passed on or returned (a modified copy that is lost while the stale original goes on being used)", func(c *Ctx) { ruleDeadUpdate(c, "pkg/core/mpt", "pkg/core/stateroot", "pkg/core") }},
 			{"check-all-loop", "a loop that rejects on a property of each element with an error return is not left early with a break (the elements after it would escape the check)", func(c *Ctx) { ruleCheckAllLoop(c, "pkg/core/mpt", "pkg/core/stateroot", "pkg/core") }},
 			{"context-height", "natives and system calls take the current height and tip hash from the execution context (the height the execution is made for), never from the live ledger: only interop.Context's own accessors read ic.Chain's height", ruleContextHeight},
+			{"historic-resolves-historic", "an RPC helper with an optional state-root parameter consults the live contract state only when no root was given: historic storage requests resolve the contract in the root they read", ruleHistoricResolvesHistoric},
 			{"proof-key", "VerifyProof walks from NewHashNode(root) over a store of its own in strict mode, and stores every proof element under the double-SHA256 of that very element", ruleProofKey},
 			{"historic-root", "the historic VM's trie store is rooted at GetStateRoot(b.Index-1) of the block it executes in, over a private cache layer, and refuses garbage-collected heights", ruleHistoricRoot},
 			{"mpt-reader", "Trie methods read node records only through the mode-aware getFromStore (a retained root keeps every key contract storage holds, in every trie mode)", ruleMPTReader},
